@@ -19,7 +19,7 @@ EXPLANATION = (
     "the sequence passed on is the input sequence; flag on => it is a permutation of the input, equal to the input whenever a comment "
     "is present or two items bind the same name, and otherwise non-decreasing in the items' text. Config::default().reorder_import_items "
     "is false and StyleArgs::to_config passes the CLI flag through (real MIR). That nothing else in the output depends on the flag is "
-    "the structural fact, checked in the same dump, that reorder_import_items is read only in convert_import_items.")
+    "the structural fact, checked in the same dump, that reorder_import_items is read only in convert_import_items. Session 3: the library skeleton - Typstyle::new keeps the configuration it is given (all four fields, every value).")
 
 
 def run(S):
